@@ -4,7 +4,7 @@
 From Coq Require Import List NArith Bool Arith Sorted.
 From Coq Require Import Strings.Byte.
 Require Import BS.Bytes BS.Common BS.Api BS.Layout BS.Format BS.FormatFacts BS.Spec BS.SpecStep BS.Sections.
-Require Import BS.FS BS.FSFacts BS.Meta BS.MetaFacts BS.Header BS.Reader BS.ReaderFacts BS.Index BS.Data BS.DataFacts BS.Seek BS.SeekFacts BS.Series BS.SeriesFacts BS.ReadAllFacts BS.HeaderFacts BS.OpenFacts.
+Require Import BS.FS BS.FSFacts BS.Meta BS.MetaFacts BS.Header BS.Reader BS.ReaderFacts BS.Index BS.Data BS.DataFacts BS.Seek BS.SeekFacts BS.Series BS.SeriesFacts BS.ReadAllFacts BS.HeaderFacts BS.OpenFacts BS.CacheFacts BS.CreateFailFacts.
 Import ListNotations.
 
 (* (I) creating over an existing series fails and leaves every file untouched *)
@@ -79,4 +79,16 @@ Theorem C17_other_header : forall p fs s uhdr name popt e cb l,
   builder_open name popt (HdrIs e) [] cb fs = (fs, Err EMismatch).
 Proof. exact open_other_header. Qed.
 Print Assumptions C17_other_header.
-(* partial: known finding D13 (stale cache file: residue) is outside these statements (caches = []). *)
+
+(* (I) create with cache levels when the files of a requested level already exist (a stale cache data file, or only a stale
+   cache index file) while the series itself and the levels requested before it do not: the create fails, and everything it
+   had made so far - the series' data and index file, both files of every earlier level - is removed again: the directory
+   afterwards holds, file for file, what it held before (after the repair 4032ba6 of D13b) *)
+Theorem C17_stale_cache_no_residue : forall p fs name hdr cb (Bs1 Bs2:list N) (B:N),
+  let header := params_to_text BSgen.Consts.version (N.of_nat p) ++ hdr in
+  fs_mem fs (name ++ ext_data) = false -> fs_mem fs (name ++ ext_index) = false -> (len header <= 65535)%N ->
+  Forall (level_free fs name) Bs1 -> level_stale fs name B ->
+  NoDup ([name ++ ext_data; name ++ ext_index] ++ flat_map (cache_names name) (Bs1 ++ [B])) ->
+  exists fs', series_new name (N.of_nat p) hdr (Bs1 ++ B :: Bs2) cb fs = (fs', Err EExists) /\ forall g, fs_get fs' g = fs_get fs g.
+Proof. exact new_stale_cache. Qed.
+Print Assumptions C17_stale_cache_no_residue.
